@@ -19,6 +19,12 @@ def prop(pid, claim, outside, assumptions=()):
 def H(pid, name, file, tier="quick", **kw):
     d = dict(prop=pid, name=name, file=file, tier=tier)
     d.update(kw)
+    # native replay (Kani concrete playback runs the harness with #[kani::stub] inactive) is meaningful only when the
+    # harness behaves the same without its stubs: formatting, the symbol-table thread-local and the diagnostics
+    # constructors do; exit / I/O / command-reader / over-approximating stubs do not.
+    if "replayable" not in d:
+        d["replayable"] = (not d.get("uf")) and all(s in (FMT, SYM) or s.startswith("error::parse_generic_unexpected") for s in d.get("stubs", []))
+        # (uf = the harness uses the unconstrained 64K memory object, whose contents concrete playback cannot set)
     HARNESSES.append(d)
 
 
